@@ -122,8 +122,18 @@ def main():
         for name in sorted(os.listdir(base)):
             d = os.path.join(base, name)
             if os.path.isfile(os.path.join(d, 'patch.diff')):
-                r = run_checks(d)
+                meta = json.load(open(os.path.join(d, 'meta.json')))
+                # run the checks recorded as catching the change (the owner, or another property's check)
+                props = sorted(k for k, v in meta.get('checks_run', {}).items() if v.get('caught')) or None
+                try:
+                    r = run_checks(d, props)
+                except RuntimeError as e:
+                    print(name, 'ERROR', str(e)[:200])
+                    sys.stdout.flush()
+                    report.append({'dir': name, 'error': str(e)[:300]})
+                    continue
                 print(name, {k: v['caught'] for k, v in r['checks'].items()})
+                sys.stdout.flush()
                 report.append(r)
         os.makedirs(os.path.join(HERE, 'sensitivity'), exist_ok=True)
         json.dump(report, open(os.path.join(HERE, 'sensitivity', 'report.json'), 'w'), indent=1)
